@@ -18,7 +18,7 @@ from . import mcmc
 from ..report import AnalysisError
 from ..term import Resolver, pmatch, find_all, abstract, anf_of
 
-FLOORS = {"float-arithmetic": 1, "must-pass-through": 4, "slot-binding": 3, "hmc-posterior-args": 5, "hmc-reflect-order": 1,
+FLOORS = {"float-arithmetic": 1, "must-pass-through": 6, "slot-binding": 3, "hmc-posterior-args": 5, "hmc-reflect-order": 1,
           "fold-form": 8, "start-validated": 4, "limit-fsm": 1, "reject-leaves-limits": 2, "limits-stored": 3}
 UTIL = "inference/mcmc/utilities.py"
 
@@ -48,6 +48,39 @@ def run(prog, tier):
         ok, why = _from_process_proposal(fn, src, s_ev[0][1])
     obs.append(struct_ob("must-pass-through", qual(c, fn) + "[store]", ok,
                          f"the stored point must be the folded point: {why}", rel, fn.lineno))
+
+    # ---------------------------------------------------------------- must-pass-through: Metropolis / Gibbs
+    # the limits of these chains live in each Parameter's `proposal` slot (decided by the state machine below): every proposed
+    # coordinate must come out of THAT slot, looked up when the step is taken (a slot value cached earlier misses later switches)
+    c, fn = prog.method("MetropolisChain", "take_step")
+    rz_m = Resolver(fn, prog, c.module, c)
+    for call in mcmc.posterior_calls(fn):
+        t_ = rz_m.term(call.args[0], rz_m.stmt_of(call))
+        okm = any(pmatch(t_, pt) is not None for pt in ("array([_p.proposal() for _p in self.params])", "[_p.proposal() for _p in self.params]",
+                                                        "asarray([_p.proposal() for _p in self.params])",
+                                                        "array([_p.proposal() for _p in self.params], dtype=_d)"))
+        obs.append(struct_ob("must-pass-through", qual(c, fn) + "[posterior]", okm,
+                             f"the proposed point must be [p.proposal() for p in self.params], each coordinate drawn through its parameter's "
+                             f"own proposal slot at step time: `{U(t_)[:160]}`", c.module.relpath, call.lineno))
+    c, fn = prog.method("GibbsChain", "take_step")
+    for call in mcmc.posterior_calls(fn):
+        pt_ = call.args[0]
+        okg, whyg = False, f"posterior argument `{U(pt_)}`"
+        if isinstance(pt_, ast.Name):
+            stores_ = [s_ for s_ in ast.walk(fn) if isinstance(s_, ast.Assign) and isinstance(s_.targets[0], ast.Subscript)
+                       and U(s_.targets[0].value) == pt_.id]
+            loops_ = [l_ for l_ in ast.walk(fn) if isinstance(l_, ast.For) and stores_ and any(x is stores_[0] for x in ast.walk(l_))]
+            if len(stores_) == 1 and loops_:
+                lp_ = loops_[0]
+                it_ = U(lp_.iter)
+                tg_ = [U(e) for e in lp_.target.elts] if isinstance(lp_.target, ast.Tuple) else [U(lp_.target)]
+                v_ = stores_[0].value
+                okg = (it_ == "enumerate(self.params)" and len(tg_) == 2 and U(stores_[0].targets[0].slice) == tg_[0]
+                       and isinstance(v_, ast.Call) and U(v_.func) == f"{tg_[1]}.proposal" and not v_.args)
+                whyg = f"coordinate store `{U(stores_[0])}` in the loop over `{it_}`"
+        obs.append(struct_ob("must-pass-through", qual(c, fn) + "[posterior]", okg,
+                             f"each coordinate of the proposed point must be p.proposal() of its own parameter, drawn at step time: {whyg}",
+                             c.module.relpath, call.lineno))
 
     # ---------------------------------------------------------------- must-pass-through: Ensemble
     c, pfn = prog.method("EnsembleSampler", "__proposal")
